@@ -24,6 +24,7 @@ type zzStream struct {
 	out         []byte
 	writes      int
 	failAt      int // fail the k-th Write (1-based) when > 0
+	failFrom    int // fail the k-th Write and every later one (a broken pipe that was not noticed yet)
 	eof         bool
 	onWrite     func(p []byte) // called (outside the stream lock) before Write returns
 	closeErr    bool           // Close reports an error (the connection is closed nevertheless)
@@ -71,6 +72,10 @@ func (s *zzStream) Write(p []byte) (int, error) {
 		return 0, errZZClosed
 	}
 	s.writes++
+	if s.failFrom > 0 && s.writes >= s.failFrom {
+		s.mu.Unlock()
+		return 0, errors.New("write: broken pipe")
+	}
 	if s.failAt > 0 && s.writes == s.failAt {
 		s.mu.Unlock()
 		return 0, errors.New("injected write failure")
